@@ -15,7 +15,8 @@ def register(reg, S):
     reg.add(Contract(
         "chartparse.tick:between", params=dict(a=INT, b=INT), result=INT,
         ensures=[("absdiff", "result == (a - b if a >= b else b - a)"), ("nonneg", "result >= 0")],
-        props=["C01", "C12"]))
+        # (tag audit, round 8: every leaf of the query chain carries the properties of the query itself)
+        props=["C01", "C12", "C03", "C11", "C16"]))
     reg.add(Contract(
         "chartparse.tick:seconds_from_ticks_at_bpm",
         params=dict(ticks=INT, bpm=REAL, resolution=INT), result=REAL,
@@ -27,7 +28,8 @@ def register(reg, S):
             ("S1", "absr(xsub(result, xdiv(60 * ticks, xmul(bpm, resolution)))) <= xmul(xmul(5, U()), xdiv(60 * ticks, xmul(bpm, resolution)))"),
             ("S2", "result >= 0 and implies(ticks == 0, result == 0)"),
         ],
-        props=["C01", "C12", "C15"]))
+        props=["C01", "C12", "C15", "C03", "C11", "C16"],
+        clause_props={"must-raise": ["C15", "C11", "C16"]}))
     reg.add(Contract(
         "chartparse.tick:note_duration_to_ticks", inst="EIGHTH_TRIPLET",
         params=dict(resolution=INT,
@@ -40,7 +42,7 @@ def register(reg, S):
         "chartparse.time:add", inst="seconds",
         params=dict(ts=TD, other=REAL), result=TD,
         ensures=[("plus-rounded", "result == ts + TDF(other)")],
-        props=["C01", "C12"]))
+        props=["C01", "C12", "C03", "C11", "C16"]))
     reg.add(Contract(
         "chartparse.time:add", inst="timedelta",
         params=dict(ts=TD, other=TD), result=TD,
